@@ -1646,8 +1646,11 @@ class TCPConnector(BaseConnector):
                 # START_TLS to work on the connection below.
                 protocol.set_response_params(
                     read_until_eof=True,
+                    read_timeout=timeout.sock_read,
                     timeout_ceil_threshold=self._timeout_ceil_threshold,
                 )
+                # (the request went out before the read timeout was known)
+                protocol.start_timeout()
                 resp = await proxy_resp.start(conn)
             except BaseException:
                 proxy_resp.close()
